@@ -259,6 +259,19 @@ class Ctx:
         if coverage:
             args += ["-coverage", "1"]
         rc, out = self._tlc(family, module, cfg, args, timeout=timeout, heap=heap, env=env)
+        # TLC 1.8 has a race between workers that lazily normalise one shared constant record
+        # ("Field name .. occurs multiple times in record", "Attempted to select nonexistent field",
+        # seen about once in ten multi-worker runs of some families).  It says nothing about the spec:
+        # run again, the last time with a single worker.
+        tries = 0
+        while (rc not in (0, 10, 11, 12, 13) and tries < 3 and
+               ("occurs multiple times in record" in out or "nonexistent field" in out or
+                "unexpected exception" in out)):
+            tries += 1
+            w = workers if tries < 3 else 1
+            log("[tlc-mc] %s/%s: TLC worker race (rc=%d), retry %d with %d workers" % (module, cfg, rc, tries, w))
+            a2 = ["-workers", str(w)] + (["-coverage", "1"] if coverage else [])
+            rc, out = self._tlc(family, module, cfg, a2, timeout=timeout, heap=heap, env=env)
         gen, dist = self._counts(out)
         dep = re.findall(r"depth of the complete state graph search is (\d+)", out)
         rec = {"module": module, "cfg": cfg, "generated": gen, "distinct": dist,
